@@ -246,6 +246,8 @@ def addrMsg : Ty := .list 8 (some maxAddrPerMsg) 80 96 netAddress
 
 /-! header, block -/
 
+def maxTxPerBlock : Nat := 10000          -- pact.MaxTxPerBlock
+
 def btcTxIn : Ty := .struct [hash256, u32, .varBytes maxScriptSize, u32]
 def btcTxOut : Ty := .struct [u64, .varBytes maxScriptSize]
 def btcTx : Ty := .struct [u32, lst 128 btcTxIn, lst 128 btcTxOut, u32]
@@ -254,6 +256,10 @@ def auxPow : Ty := .struct [btcTx, hash256, lst 128 hash256, u32, lst 128 hash25
 def headerNoAux : Ty := .struct [u32, hash256, hash256, u32, u32, u32, u32]
 /-- `Header.Serialize`: fields, aux-pow, a trailing `0x01` byte (skipped, not checked, by the reader) -/
 def header : Ty := .struct [u32, hash256, hash256, u32, u32, u32, u32, auxPow, .pad1]
+/-- `MerkleBlock` (p2p/msg): header, transaction count, `uint32` hash count checked against
+    `MaxTxPerBlock` before `make([]Uint256, numHashes)` + `make([]*Uint256, 0, numHashes)`, flag bytes -/
+def merkleBlockMsg : Ty :=
+  .struct [header, u32, .list 4 (some maxTxPerBlock) 48 0 hash256, .varBytes (maxTxPerBlock / 8)]
 
 /-! payload table: tx type → payload version → schema.  `none`: type not covered by the schema
     table (the harness does not generate it); `some .fail`: `GetPayload`/`GetTransaction` reject it. -/
